@@ -536,4 +536,9 @@ def usedDocsets (docs : List DocSet) (tasks : List TaskSel) : Option (List DocSe
   else if tasks.any (taskMatchesNothing docs) then none
   else some (docs.filter (fun d => tasks.any (fun t => selects t d)))
 
+/-- `DefaultTrackPreparator.on_prepare_track`: one `(prepare_docs, params)` task per used corpus (`corpora` = the corpus
+    names of the track in order); a task is identified by the corpus it prepares -/
+def prepareTasks (corpora : List Nat) (used : List DocSet) : List Nat :=
+  corpora.filter (fun c => used.any (fun d => d.corpus == c))
+
 end Corpus
